@@ -3,6 +3,8 @@ pub mod c01;
 pub mod c02;
 pub mod c02_ilv;
 pub mod c03;
+pub mod c04;
+pub mod cluster;
 pub mod conc;
 pub mod c06;
 pub mod c08;
@@ -10,6 +12,7 @@ pub mod c09;
 pub mod c10;
 pub mod c11;
 pub mod c12;
+pub mod c14;
 pub mod c15;
 pub mod c16;
 pub mod c17;
@@ -58,12 +61,14 @@ pub fn dispatch(run: &mut Run) -> bool {
         "C01" => c01::run(run),
         "C02" => c02::run(run),
         "C03" => c03::run(run),
+        "C04" => c04::run(run),
         "C06" => c06::run(run),
         "C08" => c08::run(run),
         "C09" => c09::run(run),
         "C10" => c10::run(run),
         "C11" => c11::run(run),
         "C12" => c12::run(run),
+        "C14" => c14::run(run),
         "C15" => c15::run(run),
         "C16" => c16::run(run),
         "C17" => c17::run(run),
